@@ -100,6 +100,7 @@ def run(tier, seed, replay=None):
         D.SVD = spy_svd
         for i in range(n):
             case = gen_case(rng, i)
+            if i in ENGINEERED: case = engineered_case(i)
             rec.clear(); svd_rec.clear()
             A, shape, eps, rmax, dtype, src, family = case
             if i % 4 == 3 and family != "tie":          # the contract is relative: tiny and huge absolute scales
@@ -198,6 +199,24 @@ def run(tier, seed, replay=None):
     return 1 if nviol else 0
 
 
+ENGINEERED = (7, 11, 13, 17)
+def engineered_case(i):
+    """deterministic cases that random generation reaches too rarely: order-1 operators with M != N from torch sources (the matrix is the core),
+    and unfoldings with a few rows and more than a million columns (and the transpose) whose second singular value is 1e-9 of the first"""
+    import torch
+    g = np.random.default_rng(1000 + i)
+    if i == 7:
+        return g.integers(-3, 4, size=(2, 3)).astype(np.float64), [(2, 3)], 1e-10, None, torch.float64, "torch", "order-1-operator"
+    if i == 11:
+        A = g.integers(-3, 4, size=(4, 2)) + 1j * g.integers(-2, 3, size=(4, 2))
+        return A.astype(np.complex128), [(4, 2)], 1e-10, None, torch.complex128, "torch", "order-1-operator"
+    wide = i == 13
+    n_big = 1 << 20
+    U, _ = np.linalg.qr(g.standard_normal((3, 2)))
+    Vt = g.standard_normal((2, n_big)); Vt[1] -= Vt[0] * (Vt[1] @ Vt[0]) / (Vt[0] @ Vt[0]); Vt /= np.linalg.norm(Vt, axis=1, keepdims=True)
+    A = (U * np.array([1.0, 1e-9])) @ Vt                      # exact rank 2, singular values 1 and 1e-9
+    return (A if wide else np.ascontiguousarray(A.T)), None, 1e-10, None, torch.float64, "torch", "million-column-unfolding" if wide else "million-row-unfolding"
+
 def superdiag(rng, d, n, sig, cplx=False):
     A = np.zeros([n] * d, dtype=np.complex128 if cplx else np.float64)
     for i, s in enumerate(sig):
@@ -287,6 +306,15 @@ def check_property(A, At, x, shape, eps, rmax, dtype, torch):
     cores = [c.detach().resolve_conj().numpy() for c in x.cores]
     if any(c.shape[0] != R[k] or c.shape[-1] != R[k + 1] for k, c in enumerate(cores)):
         fails.append("ranks: R does not describe the cores")
+    for k, c in enumerate(cores):                         # every core has the layout its object reports: (r, n, r') / (r, m, n, r')
+        want_c = ((R[k], int(x.M[k]), int(x.N[k]), R[k + 1]) if x.is_ttm else (R[k], int(x.N[k]), R[k + 1])) if k + 1 < len(R) else None
+        if want_c is not None and tuple(c.shape) != want_c:
+            fails.append("shape: core %d has shape %s, the object reports %s" % (k, tuple(c.shape), want_c)); break
+    try:
+        xf = x.full()
+        if list(xf.shape) != [int(v) for v in full_shape]: fails.append("shape: full() has shape %s, requested %s" % (list(xf.shape), full_shape))
+    except Exception as ex:
+        fails.append("shape: full() raises %s" % type(ex).__name__)
     rm = rmax if isinstance(rmax, list) else ([1] + [rmax] * (d - 1) + [1] if rmax is not None else None)
     if rm is not None and any(R[k] > rm[k] for k in range(1, d)):
         fails.append("ranks: a rank exceeds rmax: R=%s rmax=%s" % (R, rm))
